@@ -121,6 +121,52 @@ def e3(ctx, digital_rf, n, cdriver=None, capi_every=0, **kw):
     return scen, recs
 
 
+
+def refusal_histories(ctx, digital_rf, count):
+    """refusal-then-continue: a later session runs into a period finalized by an earlier one, is refused (once or twice), and
+    must remain usable for the following free periods (C11); the files it goes on to write belong to the same session
+    (uuid, increasing sequence numbers: C06)"""
+    import numpy as np
+    s4 = []
+    rng = ctx.rng
+    for i in range(count):
+        n, d, fc = cg.random_rate(rng, 300)
+        sc_ms = fc * rng.choice([1, 2, 5])
+        while sc_ms % 1000:
+            sc_ms += fc
+        t0 = (rng.randint(315532800, 4102444800) * 1000) // fc * fc
+        mode = ["gapped", "contU", "contC"][i % 3]
+        cfg = cd.ChanConfig(n, d, fc, sc_ms // 1000, np.dtype(rng.choice(["<i2", ">f4", "<u1", ">i8"])), bool(i % 2), 1 + i % 2, mode, t0, 6, seed=i)
+        root = os.path.join(ctx.work, "chan")
+        shutil.rmtree(root, ignore_errors=True)
+        os.makedirs(root)
+        ch = cd.Channel(digital_rf, root, cfg, [cfg.params()])
+        b = cfg.bound
+        k = rng.choice([2, 3])           # window finalized by session 1 (1-based)
+        ch.open(1, b[k - 1], 1)
+        ch.write([[b[k - 1], max(1, (b[k] - b[k - 1]) - rng.choice([0, 0, 1]))]])
+        ch.close()
+        s0 = b[k - 2] + rng.randint(0, b[k - 1] - b[k - 2] - 1)
+        ch.open(1, s0, 1)
+        if rng.random() < 0.7:
+            ch.write([[s0, b[k - 1] - s0 + rng.choice([1, 1, 2])]])   # contiguous into the finalized period: refused part-way
+        else:
+            ch.write([[s0, 1]])
+            ch.write([[b[k - 1], 1]])                                  # directly into the finalized period
+        for _ in range(rng.choice([0, 1, 1])):
+            ch.write([[b[k - 1] + rng.randint(0, b[k] - b[k - 1] - 1), 1]])   # a second attempt
+        a1 = b[k] + rng.choice([0, 0, 1]) * min(1, b[k + 1] - b[k] - 1)
+        n1 = rng.choice([1, 2])
+        ch.write([[a1, n1]])                                           # the next free period
+        ch.write([[max(b[k + 1], a1 + n1), 1]])
+        ch.write([[b[k + 2], 1]])
+        ch.close()
+        ch.observe([1], rng, npairs=6, nvec=1)
+        s4.append(ch.scenario("refusal%d" % i))
+        shutil.rmtree(root, ignore_errors=True)
+    return s4
+
+
 def account(ctx, scen, nsim, what):
     ev = [e for s in scen for e in s["events"]]
     kinds = {}
@@ -138,7 +184,7 @@ def account(ctx, scen, nsim, what):
             {k: v for k, v in e.items() if k not in ("newf",)} for e in s["events"][:5]]})
 
 
-def run(ctx, prefixes, nsim, nrand, what, sim_depth=12, dtype=None, witnesses=WITNESSES, post=None, capi_every=0, **genkw):
+def run(ctx, prefixes, nsim, nrand, what, sim_depth=12, dtype=None, witnesses=WITNESSES, post=None, capi_every=0, extra=None, **genkw):
     e1(ctx, witnesses=witnesses)
     ctx.stage()
     import digital_rf
@@ -154,7 +200,10 @@ def run(ctx, prefixes, nsim, nrand, what, sim_depth=12, dtype=None, witnesses=WI
     with quiet_stderr():
         s1, r1 = e2(ctx, digital_rf, nsim, sim_depth, dtype, cdriver=cdriver, capi_every=capi_every)
         s2, r2 = e3(ctx, digital_rf, nrand, cdriver=cdriver, capi_every=capi_every, **genkw)
+        s3 = extra(ctx, digital_rf) if extra else []
+    s2 = s2 + s3
     ctx.extra["c_api_histories"] = sum(1 for s in s1 + s2 if s["name"].endswith("-capi"))
+    ctx.extra["scripted_histories"] = len(s3)
     scen = s1 + s2
     account(ctx, scen, len(s1), what)
     ctx.validate("DrfChannelTrace", "DrfChannelTrace.cfg", scen, label="channel history", relevant=relevance(prefixes))
